@@ -7,7 +7,7 @@ import json, os, re, shutil, subprocess, sys
 
 VERIF = os.path.dirname(os.path.dirname(os.path.abspath(__file__)))
 WT = os.environ.get("CONFIRM_WT", "/tmp/cproc-confirm5-wt")
-BAD = re.compile(r"VIOLAT|DIFFERENT|DIFFER\b", re.I)
+BAD = re.compile(r"VIOLAT|DIFFERENT|DIFFER\b|NONDETERMINISTIC", re.I)
 
 
 def sh(cmd, **kw):
@@ -16,7 +16,7 @@ def sh(cmd, **kw):
 
 def demo(d):
     try:
-        r = sh(["sh", os.path.join(d, "demonstration"), WT], cwd=d, timeout=600)
+        r = sh([os.path.join(d, "demonstration"), WT], cwd=d, timeout=600)  # its own #! line decides the shell
         return r.returncode, r.stdout
     except subprocess.TimeoutExpired as e:
         return 124, (e.stdout or "") + "\n[timeout]"
